@@ -182,6 +182,14 @@ func Counter.WaitIsBelow
   ghost before unlock: assert c.value < threshold
   ensures unlocked(c.valueMutex)
 
+-- WaitIsZero waits through WaitIsBelow(1) (the condition variable of decreases, under the counter's invariant): for the
+-- non-negative counters it is used on, "below 1" is "zero"
+func Counter.WaitIsZero
+  requires c != nil && unlocked(c.valueMutex) && c.valueDecreasedCond != nil
+  modifies monitor(c)
+  ghost before call Counter.WaitIsBelow: assert arg0 == c && arg1 == 1
+  ensures unlocked(c.valueMutex)
+
 func Counter.WaitIsAbove
   requires c != nil && unlocked(c.valueMutex) && c.valueIncreasedCond != nil
   modifies monitor(c)
@@ -323,20 +331,31 @@ func Stack.Pop$1
 
 -- PopOrWait: the caller's wait condition is consulted BEFORE every wait - a goroutine goes to sleep on elementAdded only
 -- after the condition has just said "keep waiting" (a condition that already says "stop" - e.g. a shutdown signalled
--- before the call - must end the call at once: nobody will wake a goroutine that goes to sleep first and asks later).
--- (checked for this ordering only - opt only-ghost-asserts: the removal side of the stack and the deferred broadcast are
--- not under contract)
+-- before the call - must end the call at once: nobody will wake a goroutine that goes to sleep first and asks later) - and
+-- a removal owes a Broadcast on elementRemoved like Pop's, delivered by the deferred function, on the waiting path too.
+-- (the wait condition is the caller's function: it runs under the stack's lock and is assumed not to touch the stack)
 func Stack.PopOrWait
   instantiate T: int
-  opt only-ghost-asserts
   opt assume-type-asserts
-  requires b != nil && unlocked(b.mutex) && b.elementAdded != nil && waitCondition != nil
+  opt assume-no-overflow
+  requires b != nil && unlocked(b.mutex) && b.elementAdded != nil && b.elementRemoved != nil && waitCondition != nil
   callback waitCondition() (c)
-  modifies everything
+  modifies monitor(b)
   ghost local asked Bool        -- the condition has said "keep waiting" since the last wait (ghost)
   ghost at entry: asked = false
   ghost after call Stack.PopOrWait#waitCondition: asked = result
   ghost before wait: assert asked
+  ghost before wait: b.late = b.late + 1
   ghost after wait: asked = false
-  loop 1 invariant b != nil
+  ghost before unlock: owe elementRemoved if success
+  ghost before unlock: b.lateRem = (success ? 0 : b.lateRem)
+  loop 1 invariant held(b.mutex) && moninv(b)
+  ensures unlocked(b.mutex)
+func Stack.PopOrWait$1
+  instantiate T: int
+  opt debts-change
+  requires b != nil && *b != nil && success != nil && unlocked((*b).mutex) && (*b).elementRemoved != nil
+  modifies monitor(*b)
+  ensures unlocked((*b).mutex)
+  ensures mydebt((*b).elementRemoved) == ((*success && old(mydebt((*b).elementRemoved)) > 0) ? old(mydebt((*b).elementRemoved)) - 1 : old(mydebt((*b).elementRemoved)))
 @*/
